@@ -768,10 +768,39 @@ def check_C15(tr):
     if not tr.cfg.get("usage"):
         return out
     b = tr.cfg.get("blur")
+    took_part = {}     # (app, mailbox) -> sides that touched the current incarnation (ghost, from the history)
     for st in tr.steps:
         if st.pre is None or st.post is None or tr.has_crash:
             continue
         op = st.op
+        # ghost: which sides took part in each mailbox (open / close / claim / allocate that reached the store)
+        if op["op"] == "recv":
+            c0, m0 = op["c"], op["msg"]
+            b0 = st.bind_pre.get(c0)
+            e0 = st.err(c0)
+            t0 = m0.get("type")
+            if b0 and st.frames(c0, "ack") and not st.internal() and (e0 is None or e0 == "crowded"):
+                tgt = None
+                if t0 == "open" and "mailbox" in m0:
+                    tgt = m0["mailbox"]
+                elif t0 == "close":
+                    tgt = close_target(st)
+                elif t0 == "claim" and "nameplate" in m0:
+                    row = st.pre.np_by_key().get((b0[0], m0["nameplate"]))
+                    tgt = row[3] if row else op.get("fresh")
+                elif t0 == "allocate" and st.frames(c0, "allocated"):
+                    tgt = op.get("fresh")
+                if tgt is not None:
+                    if (b0[0], tgt) not in st.pre.mailbox_ids():
+                        took_part[(b0[0], tgt)] = set()
+                    took_part.setdefault((b0[0], tgt), set()).add(b0[1])
+        for r in list(st.pre.mailboxes) + _ephemeral_mailbox(st):
+            if (r[0], r[1]) not in st.post.mailbox_ids():
+                sides_db = {s[2] for s in st.post_sides_at_delete(r[1])}
+                ghost = took_part.pop((r[0], r[1]), None)
+                if ghost is not None and ghost != sides_db:
+                    out.append(Finding("C15", "the record of a retired mailbox is derived from every side that took part", st.i,
+                                       {"mailbox": (r[0], r[1]), "sides_by_history": sorted(ghost), "side_records": sorted(sides_db)}))
         when = op.get("t", op.get("now"))
         pruned = op["op"] == "sweep"
         def new_rows(a, bb):
